@@ -186,7 +186,8 @@ class Field:
             x, y = tilt.shift(xs=x, ys=y, z=z, wavelength=wavelength)
 
         pixelscale = np.broadcast_to(pixelscale, (2,))
-        out = x/pixelscale[0] * oversample, y/pixelscale[1] * oversample
+        # pixelscale is (row, col): x runs along columns, y along rows
+        out = x/pixelscale[1] * oversample, y/pixelscale[0] * oversample
 
         if indexing == 'ij':
             out = -out[1], out[0]
